@@ -65,9 +65,16 @@ def describe(case):
 class Ref:
     """Reference twin: sorted logical scope + array in logical state order."""
 
-    def __init__(self, scope, arr):
+    def __init__(self, scope, arr, tainted=False):
         self.scope = list(scope)
         self.arr = np.asarray(arr, dtype=float)
+        # tainted: computed by arithmetic on a non-finite cell (inf * 0, inf - inf, sums through inf ...).  The property defines
+        # x/0 = inf and 0/0 = 0 for a division of finite factors and nothing beyond, so such values (and everything computed
+        # from them) are followed structurally only.
+        self.tainted = bool(tainted)
+
+    def undefined_input(self):
+        return self.tainted or not bool(np.all(np.isfinite(self.arr)))
 
     @classmethod
     def from_spec(cls, u, f):
@@ -88,15 +95,15 @@ class Ref:
         b = np.broadcast_to(other.expand(scope, card), [card[v] for v in scope])
         with np.errstate(divide="ignore", invalid="ignore"):
             out = fn(a, b)
-        return Ref(scope, out)
+        return Ref(scope, out, tainted=self.undefined_input() or other.undefined_input())
 
     def reduce_axes(self, vs, how):
         axes = tuple(self.scope.index(v) for v in vs)
         arr = self.arr.sum(axis=axes) if how == "sum" else self.arr.max(axis=axes)
-        return Ref([v for v in self.scope if v not in vs], arr)
+        return Ref([v for v in self.scope if v not in vs], arr, tainted=self.undefined_input())
 
     def copy(self):
-        return Ref(self.scope, self.arr.copy())
+        return Ref(self.scope, self.arr.copy(), tainted=self.tainted)
 
 
 def _div(a, b):
@@ -131,6 +138,9 @@ def check_member(ctx, names, card, phi, ref, what, slot, strict_nonfinite=False)
     except Mismatch as e:
         ctx.fail("labels", f"{PROP}:labels:{what}", {"slot": slot, "why": str(e)})
         return False
+    if ref.tainted:
+        ctx.probe("undefined_arithmetic_followed_structurally")
+        return True
     a_cmp, r_cmp = np.asarray(arr, dtype=float), np.asarray(ref.arr, dtype=float)
     if not strict_nonfinite and a_cmp.shape == r_cmp.shape and not np.all(np.isfinite(r_cmp)):
         mask = np.isfinite(r_cmp)
@@ -225,7 +235,7 @@ def execute(case, ctx):
                 vs = rr.sample(sc, rr.randint(1, len(sc)))
                 st = {v: rr.randrange(card[v]) for v in vs}
                 idx = tuple(st[v] if v in st else slice(None) for v in sc)
-                rres = Ref([v for v in sc if v not in st], ra.arr[idx])
+                rres = Ref([v for v in sc if v not in st], ra.arr[idx], tainted=ra.tainted)
                 vals = [(L(v), names.S(v, s)) for v, s in st.items()]
                 if op["inplace"]:
                     a.reduce(vals, inplace=True)
@@ -236,7 +246,7 @@ def execute(case, ctx):
                 tot = ra.arr.sum()
                 if tot <= 0:
                     continue
-                rres = Ref(ra.scope, ra.arr / tot)
+                rres = Ref(ra.scope, ra.arr / tot, tainted=ra.undefined_input())
                 if op["inplace"]:
                     a.normalize(inplace=True)
                     new_ref_i = rres
@@ -245,7 +255,7 @@ def execute(case, ctx):
             elif k == "scalar":
                 c = op["c"]
                 fn = op["fn"]
-                rres = Ref(ra.scope, ra.arr * c if "mul" in fn else ra.arr + c)
+                rres = Ref(ra.scope, ra.arr * c if "mul" in fn else ra.arr + c, tainted=ra.undefined_input())
                 if op["inplace"] and fn in ("mul", "add"):
                     # scalar operand, in place: works on the value buffer itself
                     getattr(a, "product" if fn == "mul" else "sum")(c, inplace=True)
@@ -267,7 +277,7 @@ def execute(case, ctx):
                     continue
                 new_arr = ra.arr.copy()
                 new_arr[tuple(cell[v] for v in sc)] = val
-                new_ref_i = Ref(sc, new_arr)
+                new_ref_i = Ref(sc, new_arr, tainted=ra.tainted)
                 ctx.probe("poke")
             elif k == "copy":
                 result = (a.copy(), ra.copy())
@@ -354,7 +364,7 @@ def _eq_probe(ctx, u, names, a, ra, rr):
     from pgmpy.factors.discrete import DiscreteFactor
 
     sc = list(ra.scope)
-    if not sc or not np.all(np.isfinite(ra.arr)):
+    if not sc or ra.tainted or not np.all(np.isfinite(ra.arr)):
         return  # x/0 = inf and inf*0 = nan are outside the equality clause (nan != nan by IEEE)
     mags = np.abs(ra.arr[ra.arr != 0])
     if mags.size and (mags.max() > 1e30 or mags.min() < 1e-30):
